@@ -169,7 +169,7 @@ func dialectName(d dialect) string {
 
 func run(c *hx.Ctx) error {
 	res := c.Res
-	res.Rule = "random real ast expression trees of depth ≤ 6 (all unary and binary operators, call, index, slicing, selector, type assertion, conversions, default; template and program dialects; random parentheses counts), half of them restricted to the Lean fragment (identifier, int literal, unary, binary, call, index, selector, parentheses); the expressions and statements of the corpus files under test/; mutated token streams. A case is non-trivial when its tree has at least one operator or postfix node; distinct by printed source and dialect"
+	res.Rule = "random real ast expression trees of depth ≤ 6 (all unary and binary operators, call, index, slicing, selector, type assertion, conversions, default; template and program dialects; random parentheses counts), three quarters of them outside the known finding postfix-operand-parens and one quarter in a separate stream that may contain it; half of them restricted to the Lean fragment (identifier, int literal, unary, binary, call, index, selector, parentheses); the expressions and statements of the corpus files under test/; mutated token streams. A case is non-trivial when its tree has at least one operator or postfix node; distinct by printed source and dialect"
 
 	// ---- known findings are replayed first
 	for _, f := range c.Findings {
@@ -178,12 +178,14 @@ func run(c *hx.Ctx) error {
 
 	// ---- 1. random trees: the oracle on the real code
 	nTrees := c.N(6000, 120000)
-	var fragment []caseInfo
+	var fragment, nonplain []caseInfo
 	seen := map[string]bool{}
 	for i := 0; i < nTrees; i++ {
 		d := dialect(c.R.Intn(2))
 		depth := 1 + c.R.Intn(6)
-		g := &gen{r: c.R, cfg: genCfg{d: d, modelOnly: i%2 == 0}, top: depth}
+		// two trees in eight (one of them in the Lean fragment) are from the separate stream that may contain the known finding
+		// postfix-operand-parens (an operator as bare operand of a postfix expression)
+		g := &gen{r: c.R, cfg: genCfg{d: d, modelOnly: i%2 == 0}, top: depth, plain: i%8 < 6}
 		e := g.expr(depth)
 		setPositions(e)
 		s, _ := stringReal(e)
@@ -196,8 +198,15 @@ func run(c *hx.Ctx) error {
 		}
 		seen[key] = true
 		if clause, got, want := roundTrip(e, d); clause != "" {
+			known := nonPlain(e)
+			if known {
+				res.Hist("tree-in-known-class-postfix-operand-parens")
+				if inFragment(e) {
+					nonplain = append(nonplain, caseInfo{e, d, s})
+				}
+			}
 			min := shrinkExpr(e, func(x ast.Expression) bool {
-				if numberBeforeDot(x) || defaultBelowRoot(x) {
+				if numberBeforeDot(x) || defaultBelowRoot(x) || !known && nonPlain(x) {
 					return false // do not slip into a recorded finding while shrinking
 				}
 				setPositions(x)
@@ -210,7 +219,7 @@ func run(c *hx.Ctx) error {
 			res.AddBreak(proto.Break{Kind: "property", Name: clause,
 				Case:  "C27 tree " + dialectName(d) + " " + shape(min, true),
 				Human: fmt.Sprintf("tree %s prints as %q (%s)", shape(min, true), ms, dialectName(d)),
-				Impl:  got, Model: want, Finding: matchFinding(c, min, d)})
+				Impl:  got, Model: want, Finding: classify(c, min, d)})
 			continue
 		}
 		if inFragment(e) {
@@ -225,7 +234,11 @@ func run(c *hx.Ctx) error {
 
 	// ---- 2. correspondence with the Lean model
 	if c.D != nil {
-		if err := correspond(c, fragment); err != nil {
+		if err := correspond(c, fragment, true); err != nil {
+			return err
+		}
+		// the model mirrors the printer as it is: print and parse tie on the known class too
+		if err := correspond(c, nonplain, false); err != nil {
 			return err
 		}
 		if err := malformed(c, fragment); err != nil {
@@ -241,6 +254,16 @@ func run(c *hx.Ctx) error {
 	// ---- 4. corpus
 	corpus(c)
 	return nil
+}
+
+// classify gives the known finding a shrunk failing tree belongs to: exactly the class
+// postfix-operand-parens (a bare unary/binary operator as operand of a selector, index, slicing,
+// type assertion or call), or the recorded minimal input of another finding.
+func classify(c *hx.Ctx, min ast.Expression, d dialect) string {
+	if nonPlain(min) && c.HasFinding("postfix-operand-parens") {
+		return "postfix-operand-parens"
+	}
+	return matchFinding(c, min, d)
 }
 
 // matchFinding returns the id of the known finding whose minimal input is exactly this case.
@@ -296,7 +319,7 @@ func realTokens(src string, d dialect) (string, bool) {
 	return strings.Join(words, " "), true
 }
 
-func correspond(c *hx.Ctx, cases []caseInfo) error {
+func correspond(c *hx.Ctx, cases []caseInfo, plain bool) error {
 	res := c.Res
 	var lines []string
 	for _, k := range cases {
@@ -311,6 +334,23 @@ func correspond(c *hx.Ctx, cases []caseInfo) error {
 	var parseIdx []int
 	for i, k := range cases {
 		enc, _ := encodeExpr(k.e, true)
+		if !plain {
+			// In the known class the printed operators can glue: `-(-x).y` prints `--x.y`, `(^6).x`
+			// prints `^6.x`. There the tie is on the character sequence of the tokens only.
+			_, texts, err := c27.Tokens(k.s, k.d == template)
+			mw := strings.Fields(strings.TrimPrefix(ans[2*i], "ok "))
+			for j := range mw {
+				mw[j] = wordSource(mw[j])
+			}
+			if toks, ok := realTokens(k.s, k.d); err != nil || !ok || "ok "+toks != ans[2*i] {
+				if err == nil && strings.HasPrefix(ans[2*i], "ok ") && strings.Join(texts, "") == strings.Join(mw, "") {
+					res.Hist("tie-print-known-class-glued-tokens")
+				} else {
+					res.AddBreak(proto.Break{Kind: "correspondence", Name: "print-model-vs-ast.String (known class, characters)", Case: lines[2*i], Human: k.s, Impl: strings.Join(texts, ""), Model: strings.Join(mw, "")})
+				}
+				continue
+			}
+		}
 		toks, ok := realTokens(k.s, k.d)
 		if !ok {
 			res.AddBreak(proto.Break{Kind: "correspondence", Name: "real-lexer-on-printed-source", Case: lines[2*i], Human: k.s, Impl: "tokens outside the model's alphabet", Model: ans[2*i]})
@@ -329,6 +369,14 @@ func correspond(c *hx.Ctx, cases []caseInfo) error {
 		enc1, ok := encodeExpr(e1, true)
 		if !ok {
 			res.AddBreak(proto.Break{Kind: "correspondence", Name: "real-parse-outside-fragment", Case: lines[2*i], Human: k.s, Impl: shape(e1, true), Model: ans[2*i+1]})
+			continue
+		}
+		if !plain {
+			// outside `Plain` norm is not what the parser returns; only print and parse are tied
+			res.Hist("tie-print-known-class")
+			parseLines = append(parseLines, "C27 parse "+toks)
+			parseIdx = append(parseIdx, i)
+			ans[2*i+1] = "ok " + enc1
 			continue
 		}
 		if ans[2*i+1] != "ok "+enc1 {
@@ -737,6 +785,10 @@ func corpus(c *hx.Ctx) {
 				res.Hist("corpus-expr-known-literal-dot")
 				continue
 			}
+			if nonPlain(e) {
+				res.Hist("corpus-expr-known-postfix-operand-parens")
+				continue
+			}
 			if invalidFullSlice(e) {
 				// `a[i::]`, `a[::]`: accepted by the parser, rejected by the type checker (errorcheck files)
 				res.Hist("corpus-expr-invalid-3-index-slice")
@@ -804,6 +856,10 @@ func corpusStatement(c *hx.Ctx, st ast.Node, d dialect, format ast.Format) {
 	}
 	if numberBeforeDot(st) {
 		res.Hist("corpus-stmt-known-literal-dot")
+		return
+	}
+	if nonPlain(st) {
+		res.Hist("corpus-stmt-known-postfix-operand-parens")
 		return
 	}
 	if e, ok := st.(ast.Expression); ok && invalidFullSlice(e) {
